@@ -10,15 +10,11 @@ import (
 	govTypes "github.com/pokt-network/pocket-core/x/gov/types"
 
 	"github.com/pokt-network/pocket-core/codec"
-	abci "github.com/tendermint/tendermint/abci/types"
 )
 
 type lifecycle struct{}
 
 func newLifecycle() *lifecycle { return &lifecycle{} }
-
-func (s *Sim) checkOwnTx(b *blockObs, i int, tx []byte, r abci.ResponseDeliverTx, before, after *Dump, diff []Change) {
-}
 
 // ---------------------------------------------------------------- C37 feature upgrades
 
